@@ -9,6 +9,7 @@ import StathamModel.Tie
 import StathamModel.Lemmas.AccNames
 import StathamModel.Lemmas.CallVerdict
 import StathamModel.Lemmas.ElemBeq
+import StathamModel.Lemmas.SerNames
 namespace Statham.C17
 open Statham
 
@@ -49,6 +50,14 @@ theorem C17_partial_congruence (env : Env) (a b : Elem) (h : anonymize a = anony
 theorem C17_congruence_decidable (env : Env) (a b : Elem) (h : Elem.same (anonymize a) (anonymize b) = true) (v : JVal) :
     a.accepts env v = b.accepts env v :=
   C17_partial_congruence env a b (Elem.same_sound _ _ h) v
+
+/-- **Proved: and they serialize to the same JSON Schema** — class titles aside, which the property's own wording leaves out
+    of equality: the schema-level serializations of two trees equal up to names coincide once `title`s are blanked
+    (`untitle_toSchema_anon`: the serializer reads a property's JSON name and flag, never its attribute name, and a class
+    name only into `title`). -/
+theorem C17_partial_congruence_serialization (a b : Elem) (h : anonymize a = anonymize b) :
+    untitle (toSchema a) = untitle (toSchema b) :=
+  ser_congr_of_anonymize a b h
 
 /-- the same for the not-passed marker (defaults are treated alike) -/
 theorem C17_partial_congruence_notPassed (env : Env) (a b : Elem) (h : anonymize a = anonymize b) :
